@@ -12,6 +12,7 @@ import (
 	"math/big"
 	"strconv"
 	"strings"
+	"unicode/utf8"
 
 	"pgregory.net/rapid"
 
@@ -274,6 +275,10 @@ func uni(t *rapid.T, n int, label string) int {
 func spellKey(g *exprGen, k string) string {
 	if ref.IsUnquotedIdentifier(k) && !g.pct(15, "quoteAnyway") {
 		return k
+	}
+	if g.pct(20, "escapeKey") && utf8.ValidString(k) {
+		// any of the legal spellings of each character (\u00e9 for é, surrogate pairs, \/ ...)
+		return "\"" + escapeJSONString(g.t, k, '"') + "\""
 	}
 	return ref.QuoteJSON(k)
 }
